@@ -164,7 +164,7 @@ def _parse_bools(txt):
     if not m: return None
     return [w == 'true' for w in re.findall(r'true|false', m.group(1))]
 
-def coq_eval_bools(ctx, name, imports, items, chunk=300, timeout=900):
+def coq_eval_bools(ctx, name, imports, items, chunk=300, timeout=900, _depth=0):
     """items: list of Coq expressions of type bool; returns list of python bools (None on Coq failure)"""
     files = []
     for i in range(0, len(items), chunk):
@@ -181,8 +181,14 @@ def coq_eval_bools(ctx, name, imports, items, chunk=300, timeout=900):
         n = min(chunk, len(items) - k * chunk)
         b = _parse_bools(out) if rc == 0 else None
         if b is None or len(b) != n:
-            ctx.notes.append('coq evaluation failed for %s: %s' % (files[k], out[-600:]))
-            res.extend([None] * n)
+            sub = items[k * chunk:k * chunk + n]
+            if n > 1 and _depth < 12:      # isolate the items that cannot be evaluated
+                h = (n + 1) // 2
+                res.extend(coq_eval_bools(ctx, '%s_r%d_%da' % (name, _depth, k), imports, sub[:h], chunk=h, timeout=timeout, _depth=_depth + 1))
+                res.extend(coq_eval_bools(ctx, '%s_r%d_%db' % (name, _depth, k), imports, sub[h:], chunk=max(1, n - h), timeout=timeout, _depth=_depth + 1))
+            else:
+                if len(ctx.notes) < 20: ctx.notes.append('coq evaluation failed for %s: %s' % (files[k], out[-600:]))
+                res.extend([None] * n)
         else:
             res.extend(b)
     return res
